@@ -1,4 +1,5 @@
 import OmplModel.Model.HeapAudit
+import OmplModel.Model.ForwardQueueRule
 import OmplModel.Driver.Common
 /-! Line-protocol driver for the audit of dumped heap arrays (header `heapaudit`).
 
@@ -7,7 +8,9 @@ heap's own comparator, ties share a rank) whose `Element::position` field reads 
 `ord=<0|1> pos=<0|1> top=<0|1> sorted=<0|1> bad=<slots|-> pops=<ranks in the order the MODEL's pop loop yields them>`.
 `X <n> r0 … | <k> s1 … sk` : remove the elements that sit in slots `s1 … sk` *of the dump* (by handle, in that order,
 through the model's `remove`) and then pop everything: `top=<0|1 after the removals> sorted=<0|1> pops=…` (used by
-the targeted search for a continuation that turns a latent disorder into a visible one). -/
+the targeted search for a continuation that turns a latent disorder into a visible one).
+`Q <inf|k> <n> lb0 est0 eff0 …` : rows of an eitstar::ForwardQueue in the container's iteration order; answer `front=<index>` —
+the edge `getFrontIter(k)` selects as coded (`OmplModel.FwdQ.front`). -/
 namespace OmplModel.Driver.HeapAuditDrv
 open OmplModel.Heap OmplModel.Driver
 
@@ -41,6 +44,11 @@ def splitBar : List String → List String × List String
   | "|" :: rest => ([], rest)
   | x :: rest => let (a, b) := splitBar rest; (x :: a, b)
 
+def rows3 : List Nat → Option (List OmplModel.FwdQ.Row)
+  | [] => some []
+  | a :: b :: c :: rest => (rows3 rest).map (fun r => ⟨a, b, c⟩ :: r)
+  | _ => none
+
 def step (st : St) (ts : List String) : St × String :=
   match ts with
   | "H" :: n :: rest =>
@@ -66,6 +74,18 @@ def step (st : St) (ts : List String) : St × String :=
         let h1 := slots.foldl (fun h s => h.remove ltN s) h0
         let pops := popAll ltN h1.arr
         (st, s!"top={b01 (topIsMin ltN h1.arr)} sorted={b01 (sortedB ltN pops)} pops={showNats (pops.map (·.key))}")
+      | none => (st, "bad-op")
+    | _, _, _ => (st, "bad-op")
+  | "Q" :: f :: n :: rest =>
+    let fac : Option (Option Nat) := if f = "inf" then some none else (parseNat? f).map some
+    match fac, parseNat? n, parseNats? rest with
+    | some fac, some n, some xs =>
+      match rows3 xs with
+      | some rows =>
+        if rows.length ≠ n then (st, "bad-op") else
+        match OmplModel.FwdQ.front fac rows with
+        | some i => (st, s!"front={i}")
+        | none => (st, "front=-")
       | none => (st, "bad-op")
     | _, _, _ => (st, "bad-op")
   | _ => (st, "bad-op")
